@@ -274,7 +274,9 @@ static int32_t fd_cb(int32_t fd, int32_t revents, void *data)
 		// the usual pattern: close the descriptor and tell the loop to forget it
 		o.retneg_armed = false;
 		count(p_retneg);
-		if (o.reg) {
+		// the negative return is about the registration being dispatched: if the callback deleted and re-added its
+		// descriptor meanwhile, the new registration is a different one and closing its descriptor would be a misuse
+		if (o.reg && rg->gen == o.gen) {
 			o.reg = false;
 			if (o.rfd >= 0) { close(o.rfd); o.rfd = -1; }
 			if (o.wfd >= 0) { close(o.wfd); o.wfd = -1; }
